@@ -26,7 +26,7 @@ RULE = ('cases: seeded histories of 5-20 adds/removes of named cell components o
 ASSUMPTIONS = ['removing np.copy is observationally invisible under pandas copy-on-write (stated reach limit)',
                'generators are pure functions of the coordinates', 'F4 (LookupGenerator on low-dimensional worlds) is a known finding']
 FLOORS = {'quick': {'column_comparisons': 8000, 'src_callable': 330, 'src_list': 310, 'src_numpy': 320, 'src_constant': 300,
-                    'src_lookup3': 300, 'src_subclassed': 200, 'lookup_table_changed_before_use': 100, 'source_mutated_before_first_read': 200, 'src_lookup_lowdim': 190, 'removals': 400, 'in_place_updates': 300, 'rejected_unknown_removal': 300, 'source_mutations': 600,
+                    'src_lookup3': 300, 'src_subclassed': 200, 'lookup_table_changed_before_use': 100, 'source_mutated_before_first_read': 200, 'src_lookup_lowdim': 190, 'removals': 400, 'in_place_updates': 250, 're_added_existing_name': 150, 'rejected_unknown_removal': 300, 'source_mutations': 600,
                     'get_cell_rows': 3000, 'shapes_line': 50, 'shapes_grid': 50, 'shapes_3d': 50, 'shapes_degenerate': 50,
                     'generator_calls_checked': 2500, 'reach:Environments.DiscreteWorld.add_cell_component': 1900,
                     'reach:Environments.LookupGenerator.__call__': 1000},
@@ -231,7 +231,33 @@ def case_history(ctx, case):
                     verify_after.append('extra')
                 ctx.count('source_mutations')
                 verify(f'after mutating the caller\'s {src} used for {name}')
-        elif x < 0.72 and shadow:
+        elif x < 0.66 and shadow:
+            # an existing name is added again through add_cell_component: the values are replaced, nothing else changes; afterwards the
+            # name can be removed exactly once
+            name = rng.choice(list(shadow))
+            vals = [code(p_, step + 500) for p_ in table]
+            how = rng.choice(['list', 'callable', 'constant'])
+            if how == 'list':
+                env.add_cell_component(name, list(vals))
+            elif how == 'callable':
+                env.add_cell_component(name, lambda pos, cells, st=step: code(pos, st + 500))
+            else:
+                vals = [step] * ncells
+                env.add_cell_component(name, envs.ConstantGenerator(step))
+            shadow[name] = vals
+            ctx.count('re_added_existing_name')
+            trace.append(('re-add', name, how))
+            verify(f'after adding {name} again')
+            if rng.random() < 0.5:
+                env.remove_cell_component(name)
+                del shadow[name]
+                ctx.count('removals')
+                trace.append(('remove', name))
+                verify(f'after remove {name}')
+                expect_raises(Exception, f'second removal of {name!r}', env.remove_cell_component, name)
+                ctx.count('rejected_unknown_removal')
+                verify(f'after rejected second removal of {name}')
+        elif x < 0.74 and shadow:
             # the model updates a component's values in place (whole column or one cell), through the documented cells table
             name = rng.choice(list(shadow))
             homogeneous = all(type(v) is int for v in shadow[name]) or all(type(v) is str for v in shadow[name])
